@@ -21,6 +21,7 @@ import JubakoModel.Lemmas.FuncsCheck
 import JubakoModel.Lemmas.FuncsDir
 import JubakoModel.Lemmas.FuncsParse
 import JubakoModel.Lemmas.FuncsOpen
+import JubakoModel.Lemmas.FuncsCluster
 
 namespace Jubako
 
@@ -405,5 +406,34 @@ theorem c14_layout_head_follows_source (bs : Bytes) :
     ((Generated.layoutParseHead bs).map' (fun r => (r.1.1, r.1.2.1, r.1.2.2.1, r.1.2.2.2.1, r.1.2.2.2.2))).Same
       ((layoutHead bs).map' (fun h => (h.1, h.2.1, h.2.2.1, h.2.2.2.1, h.2.2.2.2.map RawProp.toSrcRaw))) :=
   ⟨layoutDecode_head bs, gen_layoutParseHead bs⟩
+
+/-- **The fixed-width wrappers read the widths the layout says**: `Count<u8|u16|u32|u64>::parse`, `Size::parse` and
+    `Offset::parse`, translated on every run, are little-endian reads of 1, 2, 4, 8, 8 and 8 bytes. The tables of the
+    other translated parsers write `takeLE bs w` for a call to one of them; this theorem is what makes that entry a
+    checked one rather than a trusted one. -/
+theorem c14_fixed_width_wrappers_follow_source (bs : Bytes) :
+    Generated.countU8Parse bs = takeLE bs 1 ∧ Generated.countU16Parse bs = takeLE bs 2 ∧
+    Generated.countU32Parse bs = takeLE bs 4 ∧ Generated.countU64Parse bs = takeLE bs 8 ∧
+    Generated.sizeParse bs = takeLE bs 8 ∧ Generated.offsetParse bs = takeLE bs 8 :=
+  gen_fixedWidthParsers bs
+
+/-- **The cluster header is decoded as the source decodes it**: `ClusterHeader::parse` with `CompressionType::parse`,
+    translated on every run, answers on every byte string what the reader model computes from the first four bytes
+    of a cluster tail: compression byte 0..3 (anything else a format error), offset width 1..8, blob count on two
+    bytes little-endian, the rest of the tail after byte 4. -/
+theorem c14_cluster_header_parser_follows_source (bs : Bytes) :
+    (Generated.clusterHeaderParse bs).map' (fun r => ((srcCompressionToNat r.1.1, r.1.2.1, r.1.2.2), r.2)) =
+      clusterHeaderModel bs ∧
+    (∀ c, leNat (slice bs 2 2) = c + 1 →
+      (((Generated.clusterHeaderParse bs).bind fun r =>
+          Generated.clusterBuilderParse r.2 (srcCompressionToNat r.1.1, r.1.2.1, r.1.2.2)).map'
+          (fun r => (r.1.1.1, r.1.1.2.1, r.1.1.2.2, r.1.2))).Same
+        ((ClusterTail.decode bs).map' (fun t => (0 :: t.offsets ++ [t.dataSize], t.dataSize, t.comp, t.rawSize)))) :=
+  ⟨gen_clusterHeaderParse bs, fun c h => gen_clusterTailParse bs c h⟩
+
+/-- the header model is a value on a well-formed header and an error on each malformed class -/
+example : clusterHeaderModel [2, 3, 1, 1, 9] = .ok ((2, 3, 257), [9]) ∧ clusterHeaderModel [4, 3, 1, 1] = .err .format ∧
+    clusterHeaderModel [0, 9, 1, 1] = .err .format ∧ clusterHeaderModel [0, 1, 1] = .err .format :=
+  ⟨rfl, rfl, rfl, rfl⟩
 
 end Jubako
